@@ -34,6 +34,7 @@ type ppCase struct {
 	Payload int    `json:"payload"`
 	Via     string `json:"via"`
 	Peers   int    `json:"peers"`
+	Layout  string `json:"layout"` // recv: "nested" (address matcher in a subroute behind the handler) | "flat" (three routes at one level)
 }
 
 // address table: boundary values per family (index 1..3)
@@ -241,6 +242,16 @@ func runPPRecv(c ppCase, idx int) (map[string]any, error) {
 		route1["match"] = []map[string]any{{"verif_m0": map[string]any{"at": pre, "v": "Y", "w": "Y"}}}
 	}
 	routes := []map[string]any{route1}
+	if c.Layout == "flat" {
+		// the same at ONE level: the PROXY route (behind the proxy_protocol matcher), then the address route, then a route
+		// that needs more data for a while; the address route is first evaluated on the socket's addresses (no) and
+		// must be evaluated again once the header has been accepted
+		routes = []map[string]any{
+			{"match": []map[string]any{{"proxy_protocol": map[string]any{}}}, "handle": []map[string]any{{"handler": "verif_h", "k": "mark", "l": 1, "r": 1}, h, {"handler": "verif_h", "k": "addrrec"}}},
+			{"match": []map[string]any{{"remote_ip": map[string]any{"ranges": []string{ripRange}}}}, "handle": []map[string]any{{"handler": "verif_h", "k": "flag", "l": 7}, {"handler": "verif_h", "k": "termraw", "l": 2, "r": 2}}},
+			{"match": []map[string]any{{"verif_m0": map[string]any{"at": 13, "v": "N", "w": "N"}}}, "handle": []map[string]any{{"handler": "verif_h", "k": "termraw", "l": 3, "r": 3}}},
+		}
+	}
 	raw, _ := json.Marshal(routes)
 	var rl layer4.RouteList
 	if err := json.Unmarshal(raw, &rl); err != nil {
